@@ -144,10 +144,11 @@ type c17Run struct {
 		node, client int
 		spec         subSpec
 	}
-	nextSubID uint32
-	pid       uint16
-	npub      int
-	retained  map[string]string // model of the federation-wide retained store: topic -> uid
+	nextSubID  uint32
+	pid        uint16
+	npub       int
+	retained   map[string]string // model of the federation-wide retained store: topic -> uid
+	nontrivial bool
 }
 
 func (r *c17Run) nodeClients(n int) []*fixture.Client {
@@ -239,7 +240,7 @@ func (r *c17Run) subscribe(cs c17Sub) *ev.Violation {
 	return nil
 }
 
-func runC17(s c17Scen, c *ev.Case) *ev.Violation {
+func runC17(s c17Scen, c *ev.Case) (out *ev.Violation) {
 	cluster, err := fixture.StartFedCluster(s.Nodes, func(i int, o *fixture.FedNodeOpts) {
 		o.Modify = func(cfg *config.Config) { cfg.MQTT.DeliveryMode = s.Mode }
 	})
@@ -264,6 +265,17 @@ func runC17(s c17Scen, c *ev.Case) *ev.Violation {
 	if err := cluster.WaitMesh(15 * time.Second); err != nil {
 		return harnessErr("mesh: %v", err)
 	}
+	w := watchFedPeers(cluster.Nodes...)
+	defer func() {
+		w.close()
+		if bad, why := w.flapped(); bad {
+			c.Logf("membership disturbed: %s (verdict %v discarded)", why, out)
+			c.Count("membership_flap_inconclusive", 1)
+			out = nil
+		} else if r.nontrivial {
+			c.NonTrivial()
+		}
+	}()
 	c.Label(fmt.Sprintf("nodes_%d", s.Nodes))
 	c.Label("mode_" + s.Mode)
 	for i, n := range cluster.Nodes {
@@ -293,6 +305,7 @@ func runC17(s c17Scen, c *ev.Case) *ev.Violation {
 	if v := r.propagate(); v != nil {
 		return v
 	}
+	w.trackCounters() // the first handshakes (which restart the queues) are over
 	for _, p := range s.Pubs1 {
 		if v := r.publish(p); v != nil {
 			return v
@@ -396,7 +409,7 @@ func (r *c17Run) publish(p c17Pub) *ev.Violation {
 	}
 	peers := len(r.cl.Nodes) - 1
 	if !retain && needing > 0 && needing < peers {
-		c.NonTrivial()
+		r.nontrivial = true
 		c.Label("needed_by_proper_subset_of_peers")
 	}
 	for _, ms := range groups {
@@ -405,7 +418,7 @@ func (r *c17Run) publish(p c17Pub) *ev.Violation {
 			nodes[m.node] = true
 		}
 		if len(nodes) >= 2 {
-			c.NonTrivial()
+			r.nontrivial = true
 			c.Label("share_group_spanning_nodes")
 		}
 	}
